@@ -179,7 +179,8 @@ impl<'a> Gen<'a> {
                 // two different units of the dimension as arguments
                 self.tags.push("ffi-two-quantities".into());
                 let a = if rng.chance(1, 3) { "0".to_string() } else { self.of_dim(rng, dim, depth - 1) };
-                let b = if rng.chance(1, 6) { "0".to_string() } else { self.of_dim(rng, dim, depth - 1) };
+                // (not both: `mod(0, 0)` is a NaN made of two polymorphic zeros — known finding C01-zero-nonfinite)
+                let b = if a != "0" && rng.chance(1, 6) { "0".to_string() } else { self.of_dim(rng, dim, depth - 1) };
                 format!("mod({}, {})", a, b)
             }
             _ => format!("({} {})", self.number(rng), self.unit_of(rng, dim)),
@@ -191,7 +192,7 @@ impl<'a> Gen<'a> {
             self.tags.push("ffi-two-quantities".into());
             let d = (*rng.pick(&self.dims)).clone();
             let a = if rng.chance(1, 3) { "0".to_string() } else { self.of_dim(rng, &d, depth - 1) };
-            let b = if rng.chance(1, 6) { "0".to_string() } else { self.of_dim(rng, &d, depth - 1) };
+            let b = if a != "0" && rng.chance(1, 6) { "0".to_string() } else { self.of_dim(rng, &d, depth - 1) };
             return format!("atan2({}, {})", a, b);
         }
         let d = (*rng.pick(&self.dims)).clone();
@@ -235,7 +236,7 @@ impl<'a> Gen<'a> {
     }
 
     fn statement(&mut self, rng: &mut Rng) {
-        match rng.below(17) {
+        match rng.below(18) {
             0..=4 => {
                 let v = self.fresh("v");
                 let (e, d) = if rng.chance(1, 2) {
@@ -367,6 +368,17 @@ impl<'a> Gen<'a> {
                 self.checked.push(v2);
                 self.tags.push("const-exponent".into());
             }
+            15 => {
+                // a second base unit of a dimension that already has one (known finding C01-second-base-unit)
+                let i = rng.below(NAMED_DIMS.len());
+                let u = self.fresh("zqbase");
+                self.stmts.push(format!("unit {}: {}", u, NAMED_DIMS[i].0));
+                let v = self.fresh("v");
+                let (n1, n2, u2) = (self.number(rng), self.number(rng), self.named_unit(rng, i));
+                self.stmts.push(format!("let {} = {} {} + {} {}", v, n1, u, n2, u2));
+                self.checked.push(v);
+                self.tags.push("second-base-unit".into());
+            }
             14 => {
                 // a generic struct whose type arguments are permuted / combined by an annotated function
                 let s = self.fresh("S");
@@ -452,6 +464,8 @@ fn classify(stmts: &[String]) -> &'static str {
     if code.contains("inf") || code.contains("NaN") { return "c01:poly-nonfinite"; }
     // a conversion whose target is the polymorphic zero: `1 m -> 0` is accepted and fails at run time
     if code.contains("-> 0)") || code.contains("-> 0.0)") || code.ends_with("-> 0") { return "c01:convert-to-zero"; }
+    // a base unit declared for a dimension that already has base units: no conversion exists between them
+    if code.lines().any(|l| l.starts_with("unit zqbase") && !l.contains('=')) { return "c01:second-base-unit"; }
     if code.contains("0.1+0.2") || code.contains("0.1 + 0.2") || code.contains("0.7+0.1") || code.contains("0.3*3") { return "c01:exponent-approx"; }
     "c01:unsound"
 }
